@@ -258,6 +258,9 @@ func GenHistory(t *rapid.T, b Bias) History {
 	} else {
 		table = append(table, wop{"flush", 1}, wop{"mmap", 1})
 	}
+	if !b.HeadOnly && !b.NoDeletes {
+		table = append(table, wop{"boundarydelete", 1 + b.Deletes/4})
+	}
 	if b.Simple {
 		table = []wop{{"open", 4}, {"add", 40}, {"commit", 10}, {"rollback", 1}, {"compact", 4}, {"flush", 2}, {"mmap", 2}}
 		if !b.NoDeletes {
@@ -473,6 +476,55 @@ func GenHistory(t *rapid.T, b Bias) History {
 			}
 			g.m.Delete(all, mint, maxt)
 			g.ops = append(g.ops, Op{K: "delete", Mint: mint, Maxt: maxt, Sel: sel})
+			if follow := rapid.IntRange(0, 5).Draw(t, "delfollow"); !b.HeadOnly && follow <= 1 {
+				// a deletion directly followed by a restart, half of the time with a head compaction
+				// in between (in the crash check: a compaction to be killed in): the tombstone has to
+				// survive both
+				g.established, g.creator = map[int]bool{}, map[int]int{}
+				if follow == 0 || b.Simple {
+					g.simulateCompact()
+					g.ops = append(g.ops, Op{K: "compact"})
+				}
+				if !b.Simple {
+					g.m.Restarted(false, math.MinInt64, g.m.Head.MinValid)
+					g.ops = append(g.ops, Op{K: "reopen"})
+				}
+			}
+		case "boundarydelete":
+			// aimed scenario: a series whose newest sample sits exactly on the head's lower bound
+			// (the end of the newest block), a deletion that covers it, then a restart
+			if !g.m.Head.Init || g.m.Head.MinValid == math.MinInt64 || g.m.Head.MinValid < g.base-4000 {
+				continue
+			}
+			g.closeAll(t)
+			s := rapid.IntRange(0, cfg.NSeries-1).Draw(t, "bdseries")
+			ser := g.m.Series[s]
+			ts := g.m.Head.MinValid
+			if ser.HasLast && ser.LastT >= ts {
+				continue
+			}
+			a := g.m.NewAppender(false)
+			g.apps[0] = a
+			g.ops = append(g.ops, Op{K: "open", A: 0})
+			if !g.established[s] {
+				g.creator[s] = 0
+			}
+			v := tm.Val{Kind: tm.KFloat, F: math.Float64bits(float64(rapid.IntRange(61, 70).Draw(t, "bdval")))}
+			g.m.Append(a, s, ts, v, false)
+			g.lastV[s] = v
+			if ts > g.now {
+				g.now = ts
+			}
+			g.ops = append(g.ops, Op{K: "add", A: 0, S: s, T: ts, V: v})
+			g.emitClose("commit", 0)
+			mint := ts - int64(rapid.SampledFrom([]int{0, 1, 10, 400}).Draw(t, "bdback"))
+			maxt := ts + int64(rapid.SampledFrom([]int{0, 0, 1, 50, 2000}).Draw(t, "bdfwd"))
+			g.deleted[s] = append(g.deleted[s], [2]int64{mint, maxt})
+			g.m.Delete([]int{s}, mint, maxt)
+			g.ops = append(g.ops, Op{K: "delete", Mint: mint, Maxt: maxt, Sel: []int{s}})
+			g.established, g.creator = map[int]bool{}, map[int]int{}
+			g.m.Restarted(false, math.MinInt64, g.m.Head.MinValid)
+			g.ops = append(g.ops, Op{K: "reopen"})
 		case "compact":
 			g.closeAll(t)
 			g.established, g.creator = map[int]bool{}, map[int]int{}
